@@ -11,3 +11,5 @@ open JetVerif.Props.C04
 #print axioms or_short_circuits
 #print axioms logic_yields_bool
 #print axioms ternary_is_lazy
+#print axioms int_equality_is_integral
+#print axioms int_float_equality
